@@ -14,6 +14,7 @@ JSONL format (one object per run; see harness/cmd/agentrun/main.go `Case`):
   log: ordered list of "probe" | "removeold" | "open" | "write" | "close" | "exec:<step or handler name>",
   exec: sorted names whose executor Run was entered, hist_files: files under the data dir after the run,
   sock_seen / sock_after: the socket path existed during / after the run, final: agent.Status() text, duration_ms,
+  hung (Run did not return within 6 s; the log is what was seen until then), stopped (it returned after the driver's SIGTERM),
   class running only: first {same observation fields of the first run}, status_before / status_after (endpoint answers around the
   second attempt), hist_during (history files while the first was active), infra (driver problem, not an observation).
 Add `"dry"` / `"pre"` to ctx.proofs(extra=["Agent/Check.vo"]) users: the .vo must be built before check_model."""
@@ -37,11 +38,13 @@ def run_cases(ctx, classes=None, tier=None, tag="agentrun"):
     args = [p, tier or ctx.tier, work]
     if classes:
         args.append(",".join(classes))
-    rc, out, dt = vlib.run_tool(tool, args, env_extra={"VERIF_SEED": str(ctx.seed)}, timeout=3000)
+    # the driver has a per-run watchdog (6 s) and a global one (4 min quick / 25 min thorough); the timeout here is a last resort
+    rc, out, dt = vlib.run_tool(tool, args, env_extra={"VERIF_SEED": str(ctx.seed)}, timeout=330 if (tier or ctx.tier) == "quick" else 1700)
+    cases = vlib.read_jsonl(p) if os.path.exists(p) else []
     if rc != 0:
-        ctx.fail("correspondence", "agent driver failed", {"log": out[-2000:]})
-        return None
-    cases = vlib.read_jsonl(p)
+        ctx.fail("correspondence", "agent driver failed or timed out (rc %d, %d cases written)" % (rc, len(cases)), {"log": out[-2000:]})
+        if not cases:
+            return None
     for c in cases:
         if c.get("infra"):
             ctx.notes.append("agentrun case %d (%s/%s) not observed: %s" % (c["k"], c["class"], c["sub"], c["infra"]))
@@ -55,6 +58,8 @@ def hist_actions(c):
 def monitor(c):
     """The agent-level clause of the property, on what the real agent did (independent of the model)."""
     cl = c["class"]
+    if c.get("hung"):
+        return "agent.Run (%s/%s) did not return within the watchdog time; until then it did: %s" % (cl, c["sub"], c["log"][:12])
     if cl == "refused":
         if c["err_kind"] not in ("cycle", "missing"):
             return "a malformed dependency graph was not refused (error: %r)" % c["err"]
